@@ -345,6 +345,7 @@ type c13Recv struct {
 	inputs [][]byte
 	idesc  []string
 	auth   [][]c13MutCase // per state: authenticated-but-malicious inputs (built from the peer clone)
+	extra  []c13MutCase   // further inputs for every state (never thinned)
 	total  int
 	offs   []int // prefix sums: state i covers [offs[i], offs[i+1])
 	probed map[[16]byte]bool
@@ -443,6 +444,23 @@ func newC13Recv(seed int64, v int, quick bool, thin int) *c13Recv {
 	for _, o := range fr.Out {
 		B.Receive(o)
 	}
+	// a fragment train in progress whose announced total is the maximum: what the next piece may cost
+	if len(fr.Out) > 1 {
+		pre := fr.Out[0][:bytes.IndexByte(fr.Out[0], ',')] // "?OTR" (v2) or "?OTR|sender|receiver" (v3)
+		mkf := func(k, n int, payload []byte) []byte {
+			return []byte(fmt.Sprintf("%s,%05d,%05d,%s,", pre, k, n, payload))
+		}
+		Bf := verifClone(B)
+		Bf.Receive(mkf(1, 65535, []byte("AAAA")))
+		snap("fragment-1-of-65535-received", Bf, nil)
+		for _, n := range []int{65535, 3} {
+			for _, sz := range []int{100, 8192, 60000} {
+				for _, k := range []int{2, 3, n} {
+					p.extra = append(p.extra, c13MutCase{"frag", mkf(k, n, bytes.Repeat([]byte("B"), sz)), fmt.Sprintf("fragment %d of %d with a %d-byte piece", k, n, sz)})
+				}
+			}
+		}
+	}
 	// disconnect
 	e := A.End()
 	rec("disconnect", e.Out)
@@ -525,6 +543,10 @@ func newC13Recv(seed int64, v int, quick bool, thin int) *c13Recv {
 			m := fmt.Sprintf("?OTR,%s,%s,payload,", k, nn)
 			add([]byte(m), "fragment header "+m)
 		}
+	}
+	for _, x := range p.extra {
+		p.inputs = append(p.inputs, x.in)
+		p.idesc = append(p.idesc, x.desc)
 	}
 	for _, m := range []string{"?OTR|", "?OTR,", "?OTR|,,,,", "?OTR,,,,", "?OTR|00000100|00000100,1,1,,", "?OTR,1,1,,", "?OTR:.", "?OTR:", "?OTR:====.", "?OTR:AAMD.", "?OTR:AAID.", "?OTR:AAMC.", "?OTR:AAMK.", "?OTR:AAMR.", "?OTR:AAMS."} {
 		add([]byte(m), "short message "+m)
@@ -1179,7 +1201,7 @@ func init() {
 			return fs
 		},
 		Run: func(r *verifReport) {
-			r.Rule = "exhaustive bounded input enumeration, every call under recover with heap allocation measured (bound 1 MiB + 4096·len): (bytes) all byte strings ≤ 6 over {00,01,7f,80,ff} into every binary parser; (sexp) all strings ≤ 7 over ( ) \" # a F space into the s-expression and key-file readers (also behind valid prefixes); (mut) every truncation, single deletion and word/char substitution of valid key and MPI serialisations and of a libotr key file; (recv) 15 conversation states × {every raw and base64 truncation and length-word substitution of every genuine message kind, ?OTR marker variants ≤ 9 chars, fragment header variants, authenticated-but-malicious TLV payloads incl. every ordered pair (thorough: triple) of the ten TLV kinds in one message} into Receive, followed by a usability probe (End, fresh exchange, text both ways) whenever the state changed; (rand) every index k at which the k-th read of Conversation.Rand fails or is short, then usability with a healed source. Non-trivial = accepted by a parser / changed state or produced an error or event"
+			r.Rule = "exhaustive bounded input enumeration, every call under recover with heap allocation measured (bound 1 MiB + 4096·len): (bytes) all byte strings ≤ 6 over {00,01,7f,80,ff} into every binary parser; (sexp) all strings ≤ 7 over ( ) \" # a F space into the s-expression and key-file readers (also behind valid prefixes); (mut) every truncation, single deletion and word/char substitution of valid key and MPI serialisations and of a libotr key file; (recv) 16 conversation states × {every raw and base64 truncation and length-word substitution of every genuine message kind, ?OTR marker variants ≤ 9 chars, fragment header variants, sizeable pieces continuing a fragment train whose announced total is 65535, authenticated-but-malicious TLV payloads incl. every ordered pair (thorough: triple) of the ten TLV kinds in one message} into Receive, followed by a usability probe (End, fresh exchange, text both ways) whenever the state changed; (rand) every index k at which the k-th read of Conversation.Rand fails or is short, then usability with a healed source. Non-trivial = accepted by a parser / changed state or produced an error or event"
 			r.Assumptions = []string{"workers run with RLIMIT_AS = 6 GiB; a worker that dies or stalls > 180 s is isolated to the single case and confirmed on two further isolated runs before it is reported", "allocation is read from runtime/metrics /gc/heap/allocs:bytes around each call"}
 			for _, part := range []string{"bytes", "sexp", "mut", "recv3", "recv2", "rand"} {
 				p := c13BuildPart(part, r.Seed, r.Tier)
